@@ -359,6 +359,70 @@ func runC10(r *Run) {
 	if last > need {
 		r.Count("unsynced_tail_survived", 1)
 	}
+	// second cycle: the recovered log is appended to and reopened once more.  Whatever recovery
+	// discarded must stay discarded: the log must be exactly the recovered entries followed by
+	// the new ones (records of the old tail still lie behind the new ones in the file).
+	if readErrAt == -2 && cs.Format == "v2" && H(r.Seed, "second-cycle")%100 < 60 {
+		k := int(H(r.Seed, "second-cycle-n")%3) + 1
+		var added []*proto.LogEntry
+		appendErr := ""
+		for i := 0; i < k && appendErr == ""; i++ {
+			o := last + 1 + int64(i)
+			val := []byte(fmt.Sprintf("second-cycle-%d", o))
+			if idx := o - first; idx >= 0 && idx < int64(len(entries)) && H(r.Seed, "second-cycle-size", i)%100 < 70 {
+				// same size as the entry that used to be at this offset: the old records behind it stay aligned
+				val = make([]byte, len(entries[idx].Value))
+				for j := range val {
+					val[j] = byte(0xA0 + i)
+				}
+			}
+			e := &proto.LogEntry{Term: 99, Offset: o, Value: val, Timestamp: uint64(1000 + o)}
+			if p := recoverPanic(func() {
+				if err := w2.Append(e); err != nil {
+					appendErr = err.Error()
+				}
+			}); p != "" {
+				r.Fail("recovery-panic@"+panicSite(p), "format=%s append after recovery panicked: %s", cs.Format, firstLine(p))
+				return
+			}
+			if appendErr == "" {
+				added = append(added, e)
+			}
+		}
+		if appendErr != "" {
+			r.Count("second_cycle_append_refused", 1)
+		} else {
+			_ = w2.Close()
+			var w3 wal.Wal
+			var err3 error
+			if p := recoverPanic(func() { w3, err3 = wal.SimNewWal("ns", 1, opts2, cp, fakeClock{}, 10*time.Minute) }); p != "" {
+				r.Fail("recovery-panic@"+panicSite(p), "format=%s second reopen panicked: %s", cs.Format, firstLine(p))
+				return
+			}
+			if err3 != nil {
+				r.Fail("second-reopen-refused", "format=%s after recovery (%s, %s), %d appends and a clean close, the log cannot be reopened: %v", cs.Format, cs.Mode, cs.Mutation, k, err3)
+				return
+			}
+			defer w3.Close()
+			wantLast := last + int64(k)
+			if got := w3.LastOffset(); got != wantLast {
+				r.Fail("discarded-entry-resurrected", "format=%s recovery (%s, %s) kept entries up to %d; %d entries were appended and synced, the log was closed and reopened: it now ends at %d instead of %d (appended originally up to %d)",
+					cs.Format, cs.Mode, cs.Mutation, last, k, got, wantLast, first+int64(len(entries))-1)
+				return
+			}
+			if rd, err := w3.NewReader(last); err == nil {
+				for _, want := range added {
+					e, err := rd.ReadNext()
+					if err != nil || !pb.Equal(e, want) {
+						r.Fail("second-cycle-wrong-data", "format=%s entry %d appended after recovery reads back differently after a reopen: %v", cs.Format, want.Offset, err)
+						break
+					}
+				}
+				_ = rd.Close()
+			}
+			r.Count("second_cycles_checked", 1)
+		}
+	}
 	r.Sig(fmt.Sprintf("%s/%d/%d/%d/%s/%s/%s", cs.Format, cs.SegSize, cs.Appended, cs.Synced, cs.Mode, mutKind(cs.Mutation), cs.Result))
 }
 
